@@ -11,6 +11,8 @@ use simplesl::{
 use std::collections::HashMap;
 use std::sync::Arc;
 
+const HALF_PRELUDE: &str = "id := (v: any) -> any { return v }; hi := (v: int) -> int { return v }; ida := (v: [any]) -> [any] { return v }; ids := (v: string) -> string { return v }; ";
+
 #[derive(Clone)]
 pub enum Seq {
     Arr(Vec<Variable>, String),
@@ -34,6 +36,32 @@ impl Seq {
         match self {
             Seq::Arr(v, _) => Variable::from(v.clone()),
             Seq::Str(c) => Variable::String(Arc::from(c.iter().collect::<String>())),
+        }
+    }
+    /// the array literal with its first element behind an identity call (None for strings and empty arrays)
+    fn partly_hidden(&self) -> Option<String> {
+        match self {
+            Seq::Arr(v, text) if !v.is_empty() => {
+                let inner = text.trim().strip_prefix('[')?.strip_suffix(']')?;
+                // split off the first element at the first top-level comma
+                let mut depth = 0i32;
+                let mut in_str = false;
+                let mut cut = inner.len();
+                for (i, ch) in inner.char_indices() {
+                    match ch {
+                        '"' => in_str = !in_str,
+                        '[' | '(' | '{' if !in_str => depth += 1,
+                        ']' | ')' | '}' if !in_str => depth -= 1,
+                        ',' if !in_str && depth == 0 => {
+                            cut = i;
+                            break;
+                        }
+                        _ => {}
+                    }
+                }
+                Some(format!("[id({}){}]", &inner[..cut], &inner[cut..]))
+            }
+            _ => None,
         }
     }
     fn kind(&self) -> &'static str {
@@ -355,6 +383,12 @@ impl Ctx<'_> {
         self.rep.shape("index_cells", &format!("{} n={} {}", seq.kind(), seq.len(), if expected.is_ok() { "in-range" } else { "out-of-range" }));
         let expr = format!("{}[{}]", seq.literal(), int_lit(i));
         self.literal(seq, "index", &expr, &expected);
+        // half-constant forms: the folding pass sees one side only
+        if let Some(part) = seq.partly_hidden() {
+            self.literal(seq, "index:hidden-element", &format!("{HALF_PRELUDE}{part}[{}]", int_lit(i)), &expected);
+        }
+        self.literal(seq, "index:hidden-sequence", &format!("{HALF_PRELUDE}{}({})[{}]", if seq.kind() == "array" { "ida" } else { "ids" }, seq.literal(), int_lit(i)), &expected);
+        self.literal(seq, "index:hidden-index", &format!("{HALF_PRELUDE}{}[hi({})]", seq.literal(), int_lit(i)), &expected);
         let (pt, rt) = match seq {
             Seq::Arr(..) => ("[any]", "any"),
             Seq::Str(_) => ("string", "string"),
@@ -371,6 +405,17 @@ impl Ctx<'_> {
         self.rep.shape("slice_shapes", &format!("{} {shape}{}", seq.kind(), if two_colons { ":" } else { "" }));
         let expr = format!("{}{}", seq.literal(), slice_text(a, b, c, two_colons));
         self.literal(seq, &format!("slice:{shape}"), &expr, &expected);
+        if let Some(part) = seq.partly_hidden() {
+            self.literal(seq, &format!("slice:{shape}:hidden-element"), &format!("{HALF_PRELUDE}{part}{}", slice_text(a, b, c, two_colons)), &expected);
+        }
+        {
+            // constant sequence, one bound hidden (each in turn by position in the cell's hash)
+            let h = |v: Option<i64>, hide: bool| v.map(|x| if hide { format!("hi({})", int_lit(x)) } else { int_lit(x) }).unwrap_or_default();
+            let which = (a.unwrap_or(1).unsigned_abs() % 3 + b.unwrap_or(2).unsigned_abs() % 3 + c.unwrap_or(3).unsigned_abs() % 3) % 3;
+            let (ta, tb, tc) = (h(a, which == 0), h(b, which == 1), h(c, which == 2));
+            let sl = if c.is_some() || two_colons { format!("[{ta}:{tb}:{tc}]") } else { format!("[{ta}:{tb}]") };
+            self.literal(seq, &format!("slice:{shape}:hidden-bound"), &format!("{HALF_PRELUDE}{}{sl}", seq.literal()), &expected);
+        }
         let (pt, rt) = match seq {
             Seq::Arr(..) => ("[any]", "[any]"),
             Seq::Str(_) => ("string", "string"),
